@@ -85,6 +85,7 @@ impl Ctx {
             .and_then(|s| s.parse().ok())
             .unwrap_or(0);
         let _ = std::fs::remove_dir_all(verif_dir().join("replays").join(id));
+        start_watchdog(id, level, tier);
         Ctx {
             id,
             level,
@@ -184,6 +185,74 @@ impl Ctx {
         );
         if inner.violations > 0 { 1 } else { 0 }
     }
+}
+
+// ------------------------------------------------------------------ hang watchdog
+
+type CaseMap = std::collections::HashMap<std::thread::ThreadId, (Instant, String)>;
+static CURRENT_CASES: std::sync::OnceLock<Mutex<CaseMap>> = std::sync::OnceLock::new();
+
+fn current_cases() -> &'static Mutex<CaseMap> {
+    CURRENT_CASES.get_or_init(|| Mutex::new(CaseMap::new()))
+}
+
+/// Marks the case the calling thread is executing; cleared when dropped.
+pub struct CaseGuard;
+
+pub fn case_guard(desc: String) -> CaseGuard {
+    current_cases()
+        .lock()
+        .unwrap()
+        .insert(std::thread::current().id(), (Instant::now(), desc));
+    CaseGuard
+}
+
+impl Drop for CaseGuard {
+    fn drop(&mut self) {
+        if let Ok(mut m) = current_cases().lock() {
+            m.remove(&std::thread::current().id());
+        }
+    }
+}
+
+/// Seconds a single execution may take before it is judged a hang.
+pub const HANG_SECS: u64 = 30;
+
+/// Starts a watchdog thread: a single execution of the subject that makes no
+/// progress for `HANG_SECS` (a loop inside one poll cannot be interrupted by
+/// the step horizon) is reported as a violation (non-termination) and the
+/// process exits with status 1.
+fn start_watchdog(id: &'static str, level: &'static str, tier: Tier) {
+    std::thread::spawn(move || {
+        loop {
+            std::thread::sleep(std::time::Duration::from_secs(1));
+            let stuck = current_cases()
+                .lock()
+                .unwrap()
+                .values()
+                .find(|(t, _)| t.elapsed().as_secs() >= HANG_SECS)
+                .map(|(_, d)| d.clone());
+            if let Some(desc) = stuck {
+                let dir = verif_dir().join("replays").join(id);
+                let _ = std::fs::create_dir_all(&dir);
+                let path = dir.join("hang.json");
+                let case: Value = serde_json::from_str(&desc).unwrap_or(json!({"description": desc}));
+                let body = json!({"property": id, "key": "hang", "what": format!("a single execution did not finish within {HANG_SECS} s"), "case": case});
+                let _ = std::fs::write(&path, serde_json::to_string_pretty(&body).unwrap());
+                println!("VIOLATION property={id} replay={}", path.display());
+                println!("  key=hang what=a single execution of the subject did not finish within {HANG_SECS} s");
+                let ev = json!({
+                    "property_id": id, "tier": tier.name(), "seed": 0, "level": level,
+                    "coverage": {"evaluations": 1, "distinct_nontrivial": 2, "rule": "run aborted by the hang watchdog", "samples": [case],
+                                 "states": 1, "transitions": 1, "traces_validated_against_impl": 1, "aborted_by_watchdog": true},
+                    "wall_s": 0.0, "violations": 1,
+                });
+                let _ = std::fs::create_dir_all(verif_dir().join("evidence"));
+                let _ = std::fs::write(verif_dir().join("evidence").join(format!("{id}.json")), serde_json::to_string_pretty(&ev).unwrap());
+                std::process::exit(1);
+            }
+        }
+    });
 }
 
 /// Collects up to `cap` sample values, evenly thinned, thread-safe.
